@@ -191,6 +191,9 @@ def gen_sort_cases(ctx, nrng, fn):
                 ("row-short", items[:n], target, base[:-1] + [base[-1][:-1]]),
                 ("target-row-long", items[:n], [target[0] + [0.5]] + target[1:], base),
                 ("all-smaller", items[:n], [r[:-1] for r in target[:-1]], [r[:-1] for r in base[:-1]]),
+                # both bases hold n vectors of one common length k != n (e.g. a file read with a truncated atom count)
+                ("both-rows-short", items[:n], [r[:-1] for r in target], [r[:-1] for r in base]),
+                ("both-rows-long", items[:n], [r + [0.25] for r in target], [r + [0.25] for r in base]),
             ]
             for name, it, t, b in variants:
                 obs, err = observe_sort(fn, it, t, b)
